@@ -22,8 +22,8 @@ func C05(r *ev.Run) {
 	r.Floor("decisions", 10000)
 	r.Floor("reinitialisations-audited", 10000)
 	r.Floor("returns-from-reinitialisation-audited", 10000)
-	r.Floor("quiescent-api-returns-checked", 5000)
-	r.Floor("recovery-replies-after-decision", 20)
+	r.Floor("quiescent-api-returns-checked", 1500)
+	r.Floor("recovery-replies-after-decision", 4)
 	r.Floor("net:synced-blocks", 100)
 	r.Floor("future-payloads-checked", 2000)
 	r.Floor("future-payloads-while-decided", 200)
